@@ -285,6 +285,16 @@ Proof.
   eapply msg_assign_fresh; exact E.
 Qed.
 
+(** Accessors of a decoded block hand out the transactions the block contains:
+    the harness compares the multiset of (lt, hash) of every accessor with the
+    list the model computes from the transaction cells (c16.blk).  The seeded
+    design that appends the address of the loop variable (C16-r6m1) returns
+    k copies of the last element: not the list. *)
+Theorem C16_loop_variable_alias_refuted :
+  forall (A : Type) (x y : A) (l : list A),
+  x <> y -> repeat (last (x :: l ++ [y]) x) (length (x :: l ++ [y])) <> x :: l ++ [y].
+Proof. exact @loop_variable_alias_refuted. Qed.
+
 (** What Hash(normalize) leaves in the receiver (Hash(true) clears the anycast
     of an addr_std destination through the shared ExtInMsgInfo pointer): the
     identity hash is never written, both hashes answer the same afterwards; the
